@@ -7,7 +7,6 @@ Open Scope Z_scope.
 Section CodecProofs.
   Variable crc : str -> N.
   Variable dec_ok : str -> bool.
-  Variable decompress : comp -> str -> option str.
   Hypothesis crc_range : forall s, (crc s < 4294967296)%N.
 
   Definition is_some {A} (o : option A) : bool := match o with Some _ => true | None => false end.
@@ -162,6 +161,9 @@ Section CodecProofs.
     destruct (Z.eqb_spec (Z.of_N (crc (firstn (Z.to_nat (lenZ s - 4)) s))) (rd32 (skipn (Z.to_nat (lenZ s - 4)) s))); [auto|discriminate].
   Qed.
 
+  Section Decode.
+  Variable decompress : comp -> str -> option str.
+
   (* C19: CRC and size-bounded decompression before any row can be scanned *)
   Lemma decode_block_crc_gate b c d : b_has_hash b = true ->
     decode_block crc decompress b c = Some d -> crc c = b_hash b.
@@ -185,6 +187,7 @@ Section CodecProofs.
   (* the bytes decoded are a function of the compressed bytes and the metadata only *)
   Lemma decode_block_same b c c' d : c = c' -> decode_block crc decompress b c' = Some d -> decode_block crc decompress b c = Some d.
   Proof. intros ->. auto. Qed.
+  End Decode.
 End CodecProofs.
 
 (* ---- the chunked region reader ---- *)
